@@ -22,6 +22,7 @@ func init() {
 }
 
 func runC09(p *Program, r *Report) {
+	narrowProg = p
 	r.Explanation = "Structural necessary conditions decided for every input: (P1) from each public entry that parses untrusted bytes, every prism function reached WITHOUT passing a frame whose deferred recover() is armed before anything can panic contains only operations that cannot panic, whose bounds are implied on every path by the path conditions (rule B: the function is abstractly interpreted with bounds tracking and 0 <= lo <= hi <= len / 0 <= i < len is proved in integer linear arithmetic from at most two conditions, admitting only conditions whose own SSA arithmetic cannot wrap), or that match a recognised sound guard idiom — constant index into an array, constant bounds under a dominating len(s) >= k, index by a counter bounded by len of the same slice, the s[2j], s[2j+1] pair with j < len(s)/2, and a slice expression data[a:a+c] dominated by `uint64(a)+uint64(c) > uint64(len(data)) → return` with the widening BEFORE the addition (a 32-bit sum that wraps defeats the check); (A1) on every explored path of the parsers the length of every make() is a constant, or is built from at most 16 input bits, or is bounded by a preceding path condition against the length of data actually held, and any subtraction in it is preceded by a condition that excludes wrap-around; every make site of meta/... is reached by the exploration; no Grow/ReadAll with an input-declared size; (A2) no allocation sized by input-declared numbers sits inside a loop whose trip count is input-declared unless its size is bounded by the bytes that iteration consumes (total memory linear in the input); (L1) every loop either has a constant or len()-bounded trip count, consumes a slice of held data from the front, or performs, on every cycle, a stream read whose failure leaves the loop (time linear in the input); (L2) no reader is ever repositioned (Unread/Reset/Discard; Seek only forward: io.SeekCurrent with an offset converted from an unsigned value). NOT decided: actual allocation totals and wall time, zlib's expansion ratio (≤ 1032:1 by format), stack depth."
 	r.RuleText = "one instance per entry point (P1), per risky instruction (P1), per make site and path (A1), per loop (L1/A2), plus scans with expected count zero"
 	r.Trusted = []string{"go/packages+go/types+go/ssa (x/tools v0.29.0)", "the abstract interpreter (bounded exploration) for A1", "recover() in a deferred closure stops a panic raised in the same goroutine below that frame", "bytes.Buffer grows with the bytes written; io.CopyN copies at most n bytes actually present"}
@@ -1055,12 +1056,46 @@ func narrowValue(v ssa.Value, depth int) bool {
 			}
 		}
 		return true
+	case *ssa.Parameter:
+		// an unexported function's parameter: narrow when every call site passes a narrow value
+		fn := x.Parent()
+		if fn == nil || fn.Pkg == nil || token.IsExported(fn.Name()) || narrowProg == nil {
+			break
+		}
+		idx := -1
+		for i, prm := range fn.Params {
+			if prm == x {
+				idx = i
+			}
+		}
+		n := 0
+		for _, g := range narrowProg.SrcFuncs() {
+			for _, b := range g.Blocks {
+				for _, in := range b.Instrs {
+					c, ok := in.(ssa.CallInstruction)
+					if !ok || staticCallee(c) != fn {
+						continue
+					}
+					args := c.Common().Args
+					if idx < 0 || idx >= len(args) || !narrowValue(args[idx], depth+1) {
+						return false
+					}
+					n++
+				}
+			}
+		}
+		if n > 0 {
+			return true
+		}
 	}
 	if w, _, ok := intTypeInfo(v.Type(), 64); ok && w <= 16 {
 		return true
 	}
 	return false
 }
+
+// narrowProg gives narrowValue access to the call sites of the module.
+var narrowProg *Program
 
 func checkLoopAllocs(p *Program, r *Report) {
 	n := 0
@@ -1259,8 +1294,16 @@ func checkLoopProgress(p *Program, r *Report) {
 					break
 				}
 				if iv := findIndVar(phi); iv != nil && (iv.Op == token.LSS || iv.Op == token.LEQ) {
-					if s, isC := constInt(iv.Step); isC && s > 0 && narrowValue(iv.Limit, 0) {
+					if s, isC := constInt(iv.Step); isC && s > 0 && !iv.Down && narrowValue(iv.Limit, 0) {
 						bounded = "trip count bounded by a constant, a len() of held data or a <= 16-bit field"
+					}
+				}
+				// counting down from a narrow start to a constant
+				if iv := findIndVar(phi); iv != nil && iv.Down && (iv.Op == token.GTR || iv.Op == token.GEQ) {
+					if s, isC := constInt(iv.Step); isC && s > 0 && narrowValue(iv.Init, 0) {
+						if _, limC := constInt(iv.Limit); limC {
+							bounded = "counts down from a constant, a len() of held data or a <= 16-bit field"
+						}
 					}
 				}
 			}
